@@ -353,9 +353,78 @@ def _run_with(scn, hooks, ev, veto=False):
     return outcome, dig, d[:nseed], d[nseed:], probs
 
 
+def order_worker(case):
+    """n listeners registered one after the other, some of them removed again, then a script that makes every kind of
+    announcement: the remaining listeners are called in the order in which they were registered (the documented
+    contract, on which a listener registered last to hear only what the others let pass relies)."""
+    _, n, removed, _ = case
+    core.reset_world()
+    core.set_order("asc")
+    s = core.sdn()
+    hooks = hook_names()
+    log = []
+
+    def mk(tagk, h):
+        def f(self, *a):
+            log.append((tagk, h))
+        f.__name__ = h
+        return f
+    from spydrnet.callback.callback_listener import CallbackListener
+    ls = []
+    for k in range(n):
+        cls = type("Ordered%d" % k, (CallbackListener,), {h: mk(k, h) for h in hooks})
+        l = cls()      # (the constructor registers every overridden hook)
+        ls.append(l)
+    for k in removed:
+        ls[k].deregister_all_listeners()
+    probs = []
+    try:
+        nl = s.Netlist(name="n")
+        lib = nl.create_library(name="l")
+        leaf = lib.create_definition(name="leaf")
+        p = leaf.create_port(name="p", pins=1)
+        d = lib.create_definition(name="d")
+        c = d.create_cable(name="c", wires=1)
+        x = d.create_child(name="x", reference=leaf)
+        c.wires[0].connect_pin(x.pins[p.pins[0]])
+        x["k"] = 1
+        x.pop("k")
+        x["k"] = 2
+        del x["k"]
+        x.name = "y"
+        nl.top_instance = d
+        c.wires[0].disconnect_pin(x.pins[p.pins[0]])
+        x.reference = None
+        d.remove_child(x)
+        p.remove_pin(p.pins[0])
+        leaf.remove_port(p)
+        c.remove_wire(c.wires[0])
+        d.remove_cable(c)
+        lib.remove_definition(d)
+        nl.remove_library(lib)
+    finally:
+        for k, l in enumerate(ls):
+            if k not in removed:
+                l.deregister_all_listeners()
+    keep = [k for k in range(n) if k not in removed]
+    fired = set(h for _, h in log)
+    # the log is a concatenation of blocks, one per announcement: in each block the listeners appear in registration order
+    i = 0
+    while i < len(log):
+        block = log[i:i + len(keep)]
+        if [k for k, _ in block] != keep or len(set(h for _, h in block)) != 1:
+            probs.append(("listeners-called-out-of-registration-order:%d-registered:%d-removed" % (n, len(removed)),
+                          "listeners %s remain (in that order of registration); announcement %r reached them as %s" % (keep, block[0][1], [k for k, _ in block])))
+            break
+        i += len(keep)
+    return {"key": core.digest(case), "nontrivial": True, "outcome": "ok", "problems": probs, "transitions": len(log), "fired": sorted(fired)}
+
+
 def partial_worker(case):
     """every single-hook listener and every all-but-one listener against the all-hooks listener and against no
     listener, over the seed and every enabled first event of one scenario."""
+    if case[0] == "order":
+        return order_worker(case)
     scn = scenarios_by_name()[case[1]]
     hooks = hook_names()
     probs = []
@@ -413,7 +482,14 @@ def scenarios_by_name():
 def partial_cases(tier):
     stride = 3 if tier == "quick" else 1
     parts = 8
-    return [("partial", name, stride, k, parts, "asc") for name in scenarios_by_name() for k in range(parts)]
+    out = [("partial", name, stride, k, parts, "asc") for name in scenarios_by_name() for k in range(parts)]
+    # registration order: 2..5 listeners, every proper subset of them removed again
+    import itertools
+    for n in range(2, 6):
+        for r in range(0, n):
+            for removed in itertools.combinations(range(n), r):
+                out.append(("order", n, list(removed), "asc"))
+    return out
 
 
 def run(tier, seed):
